@@ -109,6 +109,16 @@ def oracle(case, ctx):
         ctx.label("fit_refused:%s" % spec["kind"])
         return []
     discs = []
+    keep = bool(case.get("keep_labels")) and case["apply_container"] == "nested"
+    if keep:
+        ctx.label("selection_keeps_row_labels")
+
+    def sel_wrap(rows):
+        # a user's X.iloc[rows]: the nested frame keeps the row labels of the selection
+        if keep:
+            return panelpool.to_nested(Xap).iloc[rows]
+        return wrap(Xap[rows], case["apply_container"])
+
     for m in methods:
         fn = getattr(est, m)
         base = sut(fn, wrap(Xap, case["apply_container"]))
@@ -120,7 +130,7 @@ def oracle(case, ctx):
             discs.append(D("row_count:%s.%s" % (spec["kind"], m), "%d rows for %d instances" % (len(b), n)))
             continue
         # permutation
-        p = sut(fn, wrap(Xap[perm], case["apply_container"]))
+        p = sut(fn, sel_wrap(perm))
         if isinstance(p, Raised):
             discs.append(D("apply_raised:%s.%s:%s" % (spec["kind"], m, p.type), "permuted: " + p.msg))
         else:
@@ -129,7 +139,7 @@ def oracle(case, ctx):
                 discs.append(D("permutation_changes_rows:%s.%s" % (spec["kind"], m), "perm=%s: %s" % (perm, d)))
         # single instance
         i = case["single"] % n
-        s = sut(fn, wrap(Xap[[i]], case["apply_container"]))
+        s = sut(fn, sel_wrap([i]))
         if isinstance(s, Raised):
             discs.append(D("apply_raised:%s.%s:%s" % (spec["kind"], m, s.type), "single instance: " + s.msg))
         else:
@@ -138,7 +148,7 @@ def oracle(case, ctx):
                 discs.append(D("single_instance_differs_from_batch_row:%s.%s" % (spec["kind"], m), "instance %d: %s" % (i, d)))
         # sub-selection
         sel = sorted(set(q % n for q in case["subset"]))
-        ss = sut(fn, wrap(Xap[sel], case["apply_container"]))
+        ss = sut(fn, sel_wrap(sel))
         if isinstance(ss, Raised):
             discs.append(D("apply_raised:%s.%s:%s" % (spec["kind"], m, ss.type), "subset: " + ss.msg))
         else:
@@ -200,6 +210,7 @@ def cases(draw, family):
         "subset": draw(st.lists(st.integers(0, 5), min_size=1, max_size=4)),
         "fit_container": draw(st.sampled_from(["nested", "numpy3d"])),
         "apply_container": draw(st.sampled_from(["nested", "numpy3d"])),
+        "keep_labels": draw(st.booleans()),
     }
 
 
